@@ -544,6 +544,12 @@ HttpResponse Http::request(HttpRequest& request)
 	response.setProto(parts[0]);
 	response.setCode(parts[1]);
 	response.readHeaders();
+	if (socket.handle() < 0) // the header block was refused by the reader (or broke off): what was read is not the response
+	{
+		response.setCode(0);
+		response.setSockError("SOCKET_BAD_DATA");
+		return response;
+	}
 
 	while (response.code() == 100) // interim answer to "Expect: 100-continue": the final response follows
 	{
@@ -558,6 +564,12 @@ HttpResponse Http::request(HttpRequest& request)
 		response.setProto(parts[0]);
 		response.setCode(parts[1]);
 		response.readHeaders();
+		if (socket.handle() < 0)
+		{
+			response.setCode(0);
+			response.setSockError("SOCKET_BAD_DATA");
+			return response;
+		}
 	}
 
 	int code = response.code();
